@@ -29,7 +29,7 @@ const (
 )
 
 // entry points (script-facing ways a text reaches the library)
-var entryNames = []string{"EvalString", "LoadString+Run", "ParseTokens", "ParseFile-like", "ReplLine", "macexpand", "apply"}
+var entryNames = []string{"EvalString", "LoadString+Run", "ParseTokens", "ParseFile-like", "ReplLine", "macexpand", "Duplicate+EvalString"}
 
 const (
 	EEval = iota
@@ -161,6 +161,11 @@ func runEntry(env *zygo.Zlisp, e int, src string, budget int64) (string, *panicI
 			return replFeed(env, src)
 		case EMacexpand:
 			_, err := env.EvalString("(macexpand " + src + "\n)")
+			return classifyErr(err)
+		case EApply:
+			// a duplicate interpreter: same globals, brand-new stacks (stale stack slots hide empty-slot bugs)
+			d := env.Duplicate()
+			_, err := d.EvalString(src)
 			return classifyErr(err)
 		}
 		return "?"
@@ -428,11 +433,11 @@ type anomaly struct {
 func entriesFor(stream string) []int {
 	switch {
 	case stream == "builtins":
-		return []int{EEval}
+		return []int{EEval, EApply}
 	case stream == "specials":
 		return []int{EEval}
 	}
-	return []int{EEval, ELoadRun, EParse, EParseFile, ERepl, EMacexpand}
+	return []int{EEval, ELoadRun, EParse, EParseFile, ERepl, EMacexpand, EApply}
 }
 
 func workerMain(st Stream, from, to int, progressPath, resultPath string, budget int64, only int, perInputTimeout time.Duration) {
@@ -501,7 +506,7 @@ func workerMain(st Stream, from, to int, progressPath, resultPath string, budget
 		res.Flush()
 		os.Exit(5)
 	}
-	w := &worker{budget: budget, refresh: 3000}
+	w := &worker{budget: budget, refresh: 600}
 	w.fresh()
 	w.tieEnv = newEnv()
 	hist := map[string]int{}
